@@ -11,6 +11,7 @@ import JV.Drv.Source
 import JV.Drv.Binary
 import JV.Drv.Dom
 import JV.Drv.JsonPath
+import JV.Drv.JMESPath
 open JV Drv
 
 def dispatch (line : String) : String :=
@@ -25,6 +26,7 @@ def dispatch (line : String) : String :=
   | "bin" :: rest => binaryLine rest
   | "dom" :: rest => domLine rest
   | "jp" :: rest => jpLine rest
+  | "jm" :: rest => jmLine rest
   | [] => ""
   | _ => "bad-op"
 
